@@ -90,8 +90,15 @@ def _subset(rng, items, p_more=0.5):
 DEC_CT = (0, 0.1, 0.3, 0.334, 0.7, 1.1, 2.05)
 
 
-def gen_spec(rng, profile_name='default'):
+def gen_spec(rng, profile_name='default', big=False):
     P = profile(profile_name)
+    if big:
+        # thorough tier: a quarter of the runs use larger models, longer horizons and denser fault schedules
+        P = dict(P)
+        P['n_layers'] = tuple(P['n_layers']) + (4, 5, 6)
+        P['width'] = tuple(P['width']) + (3, 4)
+        P['n_ops'] = tuple(x for x in P['n_ops'] if x) + (60, 80)
+        P['horizon'] = tuple(P['horizon']) + (40, 80)
     decimal = rng.random() < P['p_decimal']
     global CT, DELAY
     saved = (CT, DELAY)
